@@ -37,9 +37,11 @@ def _has_for(sk):
 
 
 def check_skeleton(part, sk, placement, cfgs, scheds, seed=0, walrus_iter=False):
-    walrus_iter = walrus_iter and _has_for(sk)
+    walrus_iter = walrus_iter if _has_for(sk) else False
     src = cf.program(sk, placement, walrus_iter=walrus_iter)
-    if walrus_iter:
+    if walrus_iter == "iterator":
+        part["classes"]["for-over-iterator-object"] += 1
+    elif walrus_iter:
         part["classes"]["walrus-in-for-iterable"] += 1
     feats = cf.features(sk)
     part["evaluations"] += 1
@@ -113,7 +115,7 @@ def _sweep_shard(item):
     for idx in range(shard, len(sks), nshards):
         if len(part["violations"]) >= 3:
             break
-        check_skeleton(part, sks[idx], placement, _cfgs_for(idx), SCHEDS, walrus_iter=(idx % 4 == 1))
+        check_skeleton(part, sks[idx], placement, _cfgs_for(idx), SCHEDS, walrus_iter=(True if idx % 4 == 1 else "iterator" if idx % 4 == 3 else False))
     return part
 
 
@@ -127,7 +129,7 @@ def _sample_shard(item):
     def body(case):
         placement, sk, rs = case
         sub = new_part()
-        check_skeleton(sub, sk, placement, env.ALL_CFGS, (0, 2, rs), seed=seed & 0xffff, walrus_iter=(rs % 3 == 0))
+        check_skeleton(sub, sk, placement, env.ALL_CFGS, (0, 2, rs), seed=seed & 0xffff, walrus_iter=(True if rs % 3 == 0 else "iterator" if rs % 3 == 1 else False))
         for k in ("evaluations",):
             part[k] += sub[k]
         part["nontrivial"] |= sub["nontrivial"]
